@@ -435,6 +435,9 @@ def tamper(case: VCase, rng, others):
                 i = rng.randrange(len(pb))
                 pb[i] = ord("A") if pb[i] != ord("A") else ord("B")
                 mk(h, bytes(pb), s, "change-unencoded-payload")
+                # an attached token verified against a payload= argument that was never signed
+                mk(h, p, s, "foreign-payload-argument", b"never-signed-" + p)
+                mk(h, p, s, "foreign-payload-argument-prefix", p[:-1] if len(p) > 1 else p + b"x")
         else:
             mk(h, flip_seg(p, rng), s, "flip-payload")
         mk(h, p, flip_seg(s, rng), "flip-signature")
